@@ -33,7 +33,7 @@ type C18Case struct {
 
 type C18Stats struct {
 	Runs, Ops, Yields, Switches, SwitchesInOp uint64
-	SeqSkips, SoloSharedMut                   uint64
+	SeqSkips, SoloSharedMut, SoloUnterminated uint64
 	Strategies                                map[string]uint64
 	Families                                  map[string]uint64
 	OpNames                                   map[string]uint64
@@ -373,10 +373,13 @@ func execC18(cs *C18Case, tier string, replay bool, st *C18Stats) (*Violation, u
 		prog, outs, mut := soloRun(cs, c, gen, length, false, st)
 		cs.Programs[c] = prog
 		solo[c] = outs
-		for k, o := range outs {
+		for _, o := range outs {
 			if o.St == stBudget {
-				return &Violation{Property: "C18", Kind: "no-termination", Step: k, FailOp: prog[k].Name, Class: "budget-solo",
-					Detail: fmt.Sprintf("client %d operation %d (%s) does not terminate even when the client runs alone (last at %s)", c, k, prog[k].String(), siteName(S.budgetSite)), Ops: allOpNames(cs)}, 0
+				// does not terminate even alone: not a concurrency matter (see the note in c19.go)
+				if st != nil {
+					st.SoloUnterminated++
+				}
+				return nil, 0
 			}
 		}
 		if mut {
@@ -676,7 +679,7 @@ func workC18(res *WorkerResult, start time.Time) {
 	res.Distinct = keysOf(st.Sigs)
 	res.Stats = map[string]interface{}{
 		"runs": st.Runs, "ops": st.Ops, "yields": st.Yields, "switches": st.Switches, "switches_in_op": st.SwitchesInOp,
-		"seq_skips": st.SeqSkips, "solo_shared_mutations": st.SoloSharedMut, "strategies": st.Strategies,
+		"seq_skips": st.SeqSkips, "solo_shared_mutations": st.SoloSharedMut, "solo_unterminated": st.SoloUnterminated, "strategies": st.Strategies,
 		"families": st.Families, "op_names": st.OpNames, "pool": st.Pool, "distinct_schedule_signatures": len(st.Sigs),
 		"clients": st.Clients, "races": st.Races, "deadlocks": st.Deadlocks, "finalizers_fired": st.FinalizersFired,
 		"max_yields_in_a_run": st.MaxYields, "samples": st.Samples,
